@@ -734,8 +734,8 @@ QUARANTINE_OF = {
 
 ASSUMPTIONS = {
     'default': [
-        'sampling by seed: a clean batch is evidence, not proof; <= 10 tasks, depth <= 3, <= 3 supplied resources, 1-5 calcs per scenario',
-        'capacity of a day = what the resource object answers for that day (calendar validity bounds are generated day-aligned); calendar semantics themselves are property C17 (not applicable to this technique) and are trusted here',
+        'sampling by seed: a clean batch is evidence, not proof; quick: <= 10 tasks, depth <= 3; thorough: <= 14 tasks, depth <= 4; <= 3 supplied resources, up to 8 calc / edit steps per scenario',
+        'capacity of a day = what the calendar object (or the peer table) answers for that day, asked directly and not through Resource.get_available_units (calendar validity bounds are generated day-aligned); calendar semantics themselves are property C17 (not applicable to this technique) and are trusted here',
         'clauses that relate values derived from different clock reads are judged only when all reads of the call fall on one calendar day or none is later than the project start; one-sided clauses are judged under every clock policy',
         'a completed task is one with a user-fixed end; fixed ends are generated together with a fixed start <= end; backward scenarios judged under C09 carry no user-fixed dates and no external predecessors',
     ],
@@ -743,9 +743,10 @@ ASSUMPTIONS = {
 
 RULE = ('one run = seeded scenario (1-10 tasks, hierarchy depth <= 3, links on leaves and summaries in every WBS-order '
         'arrangement, estimates/spent incl. fractions and spent > estimate, milestones, fixed dates, min_start, external '
-        'predecessors, real Resource over composed calendars or the SimResource peer, unschedulable classes) + 1-5 calc '
-        'calls (same/fresh scheduler object, other scheduler in between, peer failure then healthy repeat, clock policies '
-        'frozen/tick/jump/step-back placed relative to the project date, early-clock re-runs, balance-off removal re-run). '
+        'predecessors, real Resource over composed calendars or the SimResource peer (optionally with per-task capacity), '
+        'unschedulable classes) + a history of calc calls and edits (same/fresh scheduler object, other scheduler or other WBS in '
+        'between, peer failure then healthy repeat, WBS / calendar edited between calcs, re-parenting, result fed back, clock '
+        'policies frozen/tick/jump/step-back placed relative to the project date, early-clock re-runs, balance-off removal re-run). '
         'distinct_nontrivial = distinct end-of-run result digests among runs with >=1 reservation row and (forward) >=1 clock read.')
 
 
